@@ -443,7 +443,7 @@ func main() {
 					}
 					obs = "(OGlobals [] " + lib.List(kv) + ")"
 				}
-				c.Case(lib.App("CPy", lib.Bool(it.loose), aspgen.CoqProg(it.build), obs),
+				c.Case(lib.App("CPy", lib.Bool(it.loose || strings.Contains(it.src, " / ")), aspgen.CoqProg(it.build), obs),
 					map[string]any{"name": it.name + ":py", "src": it.src, "python": it.py}, "py:"+it.pysrc, false)
 			}
 		}
